@@ -105,7 +105,7 @@ def encode(v, choose=first, out=None):
             out.append(0xc6)
             out += struct.pack('>I', n)
         out += v
-    elif isinstance(v, list):
+    elif isinstance(v, (list, tuple)):     # (a tuple only occurs as a map key: an array in key position)
         n = len(v)
         opts = []
         if n <= 15:
